@@ -46,8 +46,24 @@ What is compared on every run (both views, stoichiometry on/off, node keys kind 
    renderings = order of values: e.g. coefficients <= 9).  A stage mismatch is re-examined on the network and 8 renamed copies by the
    gates 0-3 above: if the property itself is violated that input is reported, otherwise the break is reported without input.
 
+7. *option variation* (configurations CONFIGS_I / CONFIGS_K, `<name>@api`): every gate above also under integer node ids
+   (`integer_ids=True`; the node each integer stands for is read off the graph's own attributes, not assumed from the
+   documented numbering; the Lean side interns node ids anyway) and under non-default key selections (more keys, keys nobody
+   carries, node keys among the arc keys and vice versa, a set-valued arc attribute, no keys at all); `ids-flipped` analyses
+   inside histories.  Configurations `<name>@api` add the rest of the public surface on the same network: limits that are not
+   reached (`max_depth=N+1`, `timeout_sec=1e6`, `max_count=count+1`), default limits (gated only when the call returned within
+   CLOCK_SLACK seconds and the count is below the default `max_count`), tight limits (`max_depth=0..2`, `max_count=count-1`),
+   the wrappers `canonical` / `detect_automorphisms` / `wl_canonical`, `orbits()` / `graph()` / `has_nontrivial_automorphism()` /
+   `iter()`, key selections given as lists, seven WL option sets.  Gates: an answer that reports no early stop is the exact one
+   (count, orbit partition, mapping set == Lean specification; canonical graph == the one of the unlimited query); where no limit
+   can have been reached an early stop must not be reported; every WL graph is isomorphic to the view (Lean `isoDecideD`).
+
+8. *rare but legal names* (stream `odd-names`): species / rules / reaction ids that are numeric strings, contain the separators of
+   the label rendering, are names of attribute keys or kinds, are blank, long or non-ASCII.
+
 A network in which a species label equals a reaction id is classified `species_label_is_edge_id`
-(finding F19: the un-prefixed string ids of the bipartite view collide).
+(finding F19: the un-prefixed string ids of the bipartite view collide; not with integer ids, where every gate applies).
+The network without species under an EMPTY node key list (F39: `_search` raised StopIteration, repaired in /repo 69924ec) is gated like any other.
 """
 import itertools
 import json
@@ -105,7 +121,37 @@ CONFIGS_X = [
     {"name": "bip+stoich/keys-permuted", "bip": True, "stoich": True, "nk": ["kind"], "ek": ["stoich", "role"]},
     {"name": "species+stoich+label/keys-permuted", "bip": False, "stoich": True, "nk": ["label", "kind"], "ek": ["stoich_p", "stoich_r"]},
 ]
-CFG = {c["name"]: c for c in CONFIGS + CONFIGS_X}
+# integer node ids (`integer_ids=True`: species 1..N, reactions N+1..N+M in the bipartite view; no effect on the species view).
+# The specification side is the same Lean model: node ids are interned before they reach it, whatever their Python type.
+CONFIGS_I = [
+    {"name": "bip+stoich/int-ids", "bip": True, "stoich": True, "nk": ["kind"], "ek": ["role", "stoich"], "int": True},
+    {"name": "bip-stoich/int-ids", "bip": True, "stoich": False, "nk": ["kind"], "ek": ["role", "stoich"], "int": True},
+    {"name": "bip+stoich+label/int-ids/keys-permuted", "bip": True, "stoich": True, "nk": ["label", "kind"], "ek": ["stoich", "role"], "int": True},
+    {"name": "species+stoich/int-ids", "bip": False, "stoich": True, "nk": ["kind"], "ek": ["stoich_r", "stoich_p"], "int": True},
+]
+# non-default key selections: more keys than the defaults, keys no node / arc carries, keys that exist on the other kind of
+# element only (a node key among the arc keys and vice versa), set-valued arc attributes, no keys at all (bare structure)
+CONFIGS_K = [
+    {"name": "bip+stoich/more-keys", "bip": True, "stoich": True, "nk": ["kind", "label", "bipartite"], "ek": ["role", "stoich", "absent"]},
+    {"name": "bip+stoich/crossed-keys", "bip": True, "stoich": True, "nk": ["stoich", "kind", "role"], "ek": ["kind", "role", "label", "stoich"]},
+    {"name": "bip+stoich/no-keys", "bip": True, "stoich": True, "nk": [], "ek": []},
+    {"name": "bip-stoich/role-only/int-ids", "bip": True, "stoich": False, "nk": ["kind"], "ek": ["role"], "int": True},
+    {"name": "species+stoich/rules", "bip": False, "stoich": True, "nk": ["kind"], "ek": ["rules", "stoich_r", "stoich_p"]},
+    {"name": "species/node-keys-only", "bip": False, "stoich": True, "nk": ["kind", "label"], "ek": []},
+]
+
+
+class _Configs(dict):
+    """Configurations by name.  `<name>@api` is the configuration <name> with the flag `api`: besides the analysis every case
+    gets, the rest of the public surface is exercised on the same network (limits, functional wrappers, methods, WL options)."""
+
+    def __missing__(self, key):
+        if isinstance(key, str) and key.endswith("@api") and key[:-4] in self:
+            return dict(self[key[:-4]], name=key, api=True)
+        raise KeyError(key)
+
+
+CFG = _Configs({c["name"]: c for c in CONFIGS + CONFIGS_X + CONFIGS_I + CONFIGS_K})
 SETLIKE = ("via", "rules", "stoich_r_map", "stoich_p_map")
 
 
@@ -125,7 +171,7 @@ def enc(x):
             raise ValueError(f"non half-integral number {x!r}")
         return {"n": int(x * 2)}
     if isinstance(x, (set, frozenset)):
-        return {"t": [enc(y) for y in sorted(x, key=repr)]}
+        return {"t": sorted((enc(y) for y in x), key=lambda z: json.dumps(z, sort_keys=True))}  # the order `canon_sets` uses
     if isinstance(x, dict):
         return {"t": [{"t": [enc(k), enc(v)]} for k, v in sorted(x.items(), key=lambda kv: repr(kv[0]))]}
     if isinstance(x, (list, tuple)):
@@ -147,6 +193,14 @@ def norm_graph(g):
     return (sorted((n, norm_attrs(a)) for n, a in g["nodes"]), sorted((u, v, norm_attrs(a)) for u, v, a in g["edges"]))
 
 
+def canon_sets(g):
+    """The same graph with every set-like attribute value (sets travel as lists) listed in one canonical order, so that
+    the driver's attribute equality is set equality whichever side produced the list."""
+    def fix(a):
+        return {k: ({"t": sorted(v["t"], key=lambda z: json.dumps(z, sort_keys=True))} if k in SETLIKE and isinstance(v, dict) and "t" in v else v) for k, v in a.items()}
+    return {"nodes": [[n, fix(a)] for n, a in g["nodes"]], "edges": [[u, v, fix(a)] for u, v, a in g["edges"]]}
+
+
 def enc_graph(G, name):
     return {"nodes": [[name(n), {str(k): enc(v) for k, v in d.items()}] for n, d in G.nodes(data=True)],
             "edges": [[name(u), name(v), {str(k): enc(x) for k, x in d.items()}] for u, v, d in G.edges(data=True)]}
@@ -155,8 +209,15 @@ def enc_graph(G, name):
 def key_graph(g, cfg):
     """What 'identical canonical graphs' compares: ids, selected node attributes, arcs with selected attributes."""
     nk, ek = cfg["nk"], cfg["ek"]
-    return (sorted((n, json.dumps([a.get(k) for k in nk], sort_keys=True)) for n, a in g["nodes"]),
-            sorted((u, v, json.dumps([a.get(k) for k in ek], sort_keys=True)) for u, v, a in g["edges"]))
+
+    def val(a, k):
+        x = a.get(k)
+        if k in SETLIKE and isinstance(x, dict) and "t" in x:  # a set: compared as a set
+            return {"t": sorted(x["t"], key=lambda z: json.dumps(z, sort_keys=True))}
+        return x
+
+    return (sorted((n, json.dumps([val(a, k) for k in nk], sort_keys=True)) for n, a in g["nodes"]),
+            sorted((u, v, json.dumps([val(a, k) for k in ek], sort_keys=True)) for u, v, a in g["edges"]))
 
 
 def partition(classes, name):
@@ -220,6 +281,49 @@ def raw_wl(w, cfg):
     return {"graph": json.dumps(key_graph(enc_graph(w["canon_graph"], int), cfg))}
 
 
+def ctor_kw(cfg):
+    """Constructor options shared by the three analysers and their functional wrappers."""
+    kw = dict(include_rule=cfg["bip"], include_stoich=cfg["stoich"], node_attr_keys=tuple(cfg["nk"]))
+    if cfg.get("int"):
+        kw["integer_ids"] = True
+    return kw
+
+
+def int_id_names(G, mnet, cfg):
+    """Integer-id bipartite view: the model node (species i -> i, reaction j -> nS + j, both in sorted order) each integer
+    stands for, read off the graph itself: a species node by its `label`; a reaction node by its rule and its incident arcs
+    (reactions that agree in all of that are exchangeable, so any assignment inside such a group names the same graph).
+    If the graph cannot be read that way, the documented numbering (species 1..N, reactions N+1..N+M) is used, and the
+    view gate reports what differs."""
+    labels, rx = mnet["labels"], mnet["rxns"]
+    nS = len(labels)
+    try:
+        sp = {}
+        for v, d in G.nodes(data=True):
+            if d.get("kind") == "species":
+                sp[v] = labels.index(d["label"])
+        if len(set(sp.values())) != len(sp) or len(sp) != nS:
+            raise ValueError("species labels")
+        co = (lambda c: int(c)) if cfg["stoich"] else (lambda c: None)
+        want = {}
+        for j, q in enumerate(rx):
+            want.setdefault(json.dumps([q["rule"], sorted([i, co(c)] for i, c in q["r"]), sorted([i, co(c)] for i, c in q["p"])]), []).append(j)
+        have = {}
+        for v in sorted(x for x in G.nodes() if x not in sp):
+            sig = json.dumps([G.nodes[v].get("label"), sorted([sp[u], G[u][v].get("stoich")] for u in G.predecessors(v)),
+                              sorted([sp[w], G[v][w].get("stoich")] for w in G.successors(v))])
+            have.setdefault(sig, []).append(v)
+        if {k: len(x) for k, x in want.items()} != {k: len(x) for k, x in have.items()}:
+            raise ValueError("reaction nodes")
+        names = dict(sp)
+        for k, vs in have.items():
+            for v, j in zip(vs, want[k]):
+                names[v] = nS + j
+        return names
+    except Exception:  # noqa: BLE001 - fall back to the documented numbering
+        return {v: v - 1 for v in G.nodes() if isinstance(v, int)}
+
+
 def make_vf2(H, cfg, kw):
     from synkit.CRN.Topo.automorphism import CRNAutomorphism
 
@@ -236,7 +340,7 @@ def analyse_once(H, cfg, who, helpers, cfg_is_final):
     from synkit.CRN.Topo.automorphism import detect_automorphisms
     from synkit.CRN.Topo.wl_canon import WLCanonicalizer, wl_canonical
 
-    kw = dict(include_rule=cfg["bip"], include_stoich=cfg["stoich"], node_attr_keys=tuple(cfg["nk"]))
+    kw = ctor_kw(cfg)
     ek = tuple(cfg["ek"])
     for w in who:
         kind, obj, said = w.split("_")[0], None, None
@@ -271,6 +375,8 @@ def resolve_cfg(cfg, spec):
         return dict(cfg, stoich=not cfg["stoich"], name=cfg["name"] + "~stoich")
     if spec == "view-flipped":  # bipartite <-> species view
         return dict(cfg, bip=not cfg["bip"], ek=(["stoich_r", "stoich_p"] if cfg["bip"] else ["role", "stoich"]), name=cfg["name"] + "~view")
+    if spec == "ids-flipped":  # same view and keys, integer node ids <-> string node ids
+        return dict(cfg, int=not cfg.get("int"), name=cfg["name"] + "~ids")
     if spec == "keys-flipped":  # same view, other attribute selection
         return dict(cfg, nk=(["kind", "label"] if cfg["nk"] == ["kind"] else ["kind"]), ek=list(reversed(cfg["ek"])), name=cfg["name"] + "~keys")
     return CFG[spec]
@@ -422,7 +528,8 @@ def impl_eval(net, cfg):
         H = build({k: v for k, v in net.items() if k != "history"})
     mnet = model_net(H)
     labels, eids = mnet["labels"], [r["id"] for r in mnet["rxns"]]
-    collision = sorted(set(labels) & set(eids))
+    int_ids = bool(cfg.get("int") and cfg["bip"])  # integer node ids: a species label equal to a reaction id merges nothing
+    collision = [] if int_ids else sorted(set(labels) & set(eids))
     res = {"mnet": mnet, "collision": collision, "errors": {}}
     if hist_error:
         res["errors"]["history (edits / earlier analyses of the same object)"] = hist_error
@@ -436,7 +543,7 @@ def impl_eval(net, cfg):
     def name(x):
         return names[x]
 
-    kw = dict(include_rule=cfg["bip"], include_stoich=cfg["stoich"], node_attr_keys=tuple(cfg["nk"]))
+    kw = ctor_kw(cfg)
     # -- canonicaliser
     try:
         cz = CRNCanonicalizer(H, edge_attr_keys=tuple(cfg["ek"]), **kw)
@@ -444,6 +551,9 @@ def impl_eval(net, cfg):
         res["n_nodes"] = G.number_of_nodes()
         if ambiguous:
             return res
+        if int_ids:
+            names = int_id_names(G, mnet, cfg)
+            res["id_types"] = sorted({type(v).__name__ for v in G.nodes()})
         res["G"] = enc_graph(G, name)
         s = cz.summary()
         cg = s["canon_graph"]
@@ -501,6 +611,12 @@ def impl_eval(net, cfg):
         res["wl"] = {"graph": enc_graph(w["canon_graph"], int), "cells": [sorted(name(x) for x in o) for o in w["orbits"]], "said": raw_wl(w, cfg)}
     except Exception as e:  # noqa: BLE001
         res["errors"]["wl"] = f"{type(e).__name__}: {e}"
+    # -- the rest of the public surface on the same network (configurations <name>@api)
+    if cfg.get("api") and "canon" in res and "vf2" in res:
+        try:
+            res["api"] = api_variants(H, cfg, kw, name, res)
+        except Exception as e:  # noqa: BLE001
+            res["errors"]["api variants (harness)"] = f"{type(e).__name__}: {e}"
     # -- helper objects created earlier in the history (same configuration), asked again now
     res["reuse"] = []
     for h in helpers[-6:]:
@@ -515,6 +631,117 @@ def impl_eval(net, cfg):
         except Exception as e:  # noqa: BLE001
             res["errors"]["helper created before an edit, asked again"] = f"{type(e).__name__}: {e}"
     return res
+
+
+WL_OPTION_SETS = [
+    {"n_iter": 0}, {"n_iter": 1}, {"n_iter": 3, "digest_size": 4}, {"digest_size": 32, "estimate_automorphisms": False},
+    {"include_in_neighbors": False}, {"include_out_neighbors": False}, {"include_in_neighbors": False, "include_out_neighbors": False, "automorphism_cap": 7},
+]
+class _ForeignNode(Exception):
+    """An answer names a node that is not a node of the view (or a canonical id that is not an integer)."""
+
+
+CLOCK_SLACK = 2.0  # a call that took less than this (outer wall clock) cannot have hit a default time limit of >= 5 s
+
+
+def api_variants(H, cfg, kw, name, res):
+    """Further ways to ask the same questions about the same network under the same configuration: explicit limits that are
+    not reached, default limits, tight limits, the functional wrappers, the single-purpose methods, key selections given as
+    lists, WL option sets.  Every answer is recorded with `complete` (the analyser does not report an early stop) and
+    `must` (this harness knows that no limit can have been reached); the gates are in `check_api`."""
+    import time
+    from synkit.CRN.Topo.canon import CRNCanonicalizer, canonical
+    from synkit.CRN.Topo.automorphism import CRNAutomorphism, detect_automorphisms
+    from synkit.CRN.Topo.wl_canon import WLCanonicalizer, wl_canonical
+
+    ek = tuple(cfg["ek"])
+    n = res["n_nodes"]
+    out = {"canon": [], "vf2": [], "wl": []}
+    name_of_view = name
+
+    def name(x):
+        try:
+            return name_of_view(x)
+        except (KeyError, TypeError):
+            raise _ForeignNode(f"{x!r} is not a node of the view") from None
+
+    def cid(x):
+        if isinstance(x, bool) or not isinstance(x, int):
+            raise _ForeignNode(f"canonical id {x!r} is not an integer")
+        return x
+
+    def parts(orbs):
+        return [sorted(name(x) for x in o) for o in orbs]
+
+    def attempt(bucket, how, fn, may_give_up=False):
+        t0 = time.time()
+        try:
+            rec = fn()
+        except _ForeignNode as e:
+            rec = {"foreign": str(e)[:200]}
+        except Exception as e:  # noqa: BLE001
+            if may_give_up and isinstance(e, RuntimeError):  # documented: no canonical form found under the given (tight) limits
+                rec = {"gave_up": str(e)[:120]}
+            else:
+                rec = {"error": f"{type(e).__name__}: {e}"[:300]}
+        rec["how"], rec["wall"] = how, time.time() - t0
+        out[bucket].append(rec)
+        return rec
+
+    def canon_rec(s, must):
+        return {"graph": enc_graph(s["canon_graph"], cid), "count": int(s["automorphism_count"]), "orbits_raw": parts(s["orbits"]),
+                "maps": sorted(mapping_list(m, name) for m in s["mappings"]), "perm": [name(v) for v in s["canonical_perm"]],
+                "complete": not s["early_stop"], "must": must}
+
+    big = dict(max_depth=n + 1, timeout_sec=10 ** 6)
+    cz = CRNCanonicalizer(H, edge_attr_keys=list(cfg["ek"]), **dict(kw, node_attr_keys=list(cfg["nk"])))
+    attempt("canon", "summary(max_depth=N+1, timeout_sec=1e6), key selections given as lists", lambda: canon_rec(cz.summary(**big), True))
+    attempt("canon", "canonical(..., max_depth=N+1, timeout_sec=1e6).summary()", lambda: canon_rec(canonical(H, edge_attr_keys=ek, **kw, **big).summary(), True))
+    attempt("canon", "canonical(...).summary(timeout_sec=1e6)", lambda: canon_rec(canonical(H, edge_attr_keys=ek, **kw).summary(timeout_sec=10 ** 6), True))
+    for d in (0, 1, 2):
+        attempt("canon", f"summary(max_depth={d})", lambda d=d: canon_rec(CRNCanonicalizer(H, edge_attr_keys=ek, **kw).summary(max_depth=d), False), may_give_up=True)
+    attempt("canon", "orbits(max_depth=N+1, timeout_sec=1e6)", lambda: {"orbits_raw": parts(cz.orbits(**big)), "complete": True, "must": True})
+    attempt("canon", "graph(max_depth=N+1, timeout_sec=1e6)", lambda: {"graph": enc_graph(cz.graph(**big), cid), "complete": True, "must": True})
+    attempt("canon", "has_nontrivial_automorphism(max_depth=N+1, timeout_sec=1e6)", lambda: {"nontrivial": bool(cz.has_nontrivial_automorphism(**big)), "complete": True, "must": True})
+
+    c0 = res["vf2"]["count"]
+
+    def vf2_rec(r, must):
+        return {"count": int(r["automorphism_count"]), "orbits_raw": parts(r["orbits"]), "maps": sorted(mapping_list(m, name) for m in r["sample_mappings"]),
+                "used": int(r["mapping_count_used"]), "complete": not r["stopped_early"], "must": must}
+
+    def timed(fn, limit_ok):
+        """`must` only if the count limit is above the true count and the call was fast enough not to have met a default time limit."""
+        t0 = time.time()
+        r = fn()
+        r["must"] = bool(limit_ok and time.time() - t0 < CLOCK_SLACK)
+        if r.get("complete") is None:  # a method that does not say whether it stopped early: exact only if it cannot have
+            r["complete"] = r["must"]
+        return r
+
+    if res.get("vf2_edge_keys"):
+        a = CRNAutomorphism(H, edge_attr_keys=list(cfg["ek"]), **dict(kw, node_attr_keys=list(cfg["nk"])))
+        attempt("vf2", "summary(max_count=count+1, timeout_sec=1e6), key selections given as lists", lambda: vf2_rec(a.summary(max_count=c0 + 1, timeout_sec=10 ** 6), True))
+        attempt("vf2", "summary() with its default limits", lambda: timed(lambda: vf2_rec(a.summary(), False), c0 < 100))
+        if c0 > 1:
+            attempt("vf2", "summary(max_count=count-1, timeout_sec=None)", lambda: vf2_rec(a.summary(max_count=c0 - 1, timeout_sec=None), False))
+        attempt("vf2", "orbits() with its default limits", lambda: timed(lambda: {"orbits_raw": parts(a.orbits()), "complete": None}, c0 < 1000))
+        attempt("vf2", "has_nontrivial_automorphism() with its default limit", lambda: timed(lambda: {"nontrivial": bool(a.has_nontrivial_automorphism()), "complete": None}, True))
+        attempt("vf2", "iter(max_count=None, timeout_sec=None)", lambda: {"maps": sorted(mapping_list(m, name) for m in a.iter(max_count=None, timeout_sec=None)), "complete": True, "must": True})
+    if sorted(cfg["ek"]) == ["role", "stoich"]:  # the wrapper has no edge_attr_keys parameter: it matches arcs on (role, stoich)
+        attempt("vf2", "detect_automorphisms(..., max_count=None, timeout_sec=None)", lambda: vf2_rec(detect_automorphisms(H, max_count=None, timeout_sec=None, **kw), True))
+        attempt("vf2", "detect_automorphisms(...) with its default limits", lambda: timed(lambda: vf2_rec(detect_automorphisms(H, **kw), False), c0 < 5000))
+
+    def wl_rec(w, obj):
+        return {"graph": enc_graph(w["canon_graph"], cid), "cells": parts(w["orbits"]), "graph_method": enc_graph(obj.graph(), cid), "cells_method": parts(obj.orbits()),
+                "again": enc_graph(obj.summary()["canon_graph"], cid)}
+
+    for i, o in enumerate(WL_OPTION_SETS):
+        def one(o=o, i=i):
+            obj = (wl_canonical if i % 2 else WLCanonicalizer)(H, edge_attr_keys=ek, **kw, **o)
+            return wl_rec(obj.summary(), obj)
+        attempt("wl", ("wl_canonical" if i % 2 else "WLCanonicalizer") + "(" + ", ".join(f"{k}={v}" for k, v in o.items()) + ")", one)
+    return out
 
 
 # ---------------------------------------------------------------- evaluation of families
@@ -541,11 +768,31 @@ def sel(cfg):
     return {"node_keys": cfg["nk"], "edge_keys": cfg["ek"]}
 
 
+def out_of_scope(ctx, net, cn):
+    """(network, configuration) pairs the generators do not produce gates for.  None any more: the network without any
+    species under an EMPTY node key list used to raise StopIteration in `CRNCanonicalizer._search` (F39, repaired in /repo
+    69924ec) and is now gated like any other; the pair is only counted."""
+    if not CFG[cn]["nk"] and not net["rxns"] and not net.get("isolated") and not net.get("history"):
+        ctx.count("empty-network-with-empty-node-key-list")
+    return False
+
+
 def evaluate(ctx, families, tag, all_pairs=True, shrink=True):
     """families: list of (nets, cfg_names).  Every member is analysed under every configuration;
     members are compared pairwise (all pairs, or each with member 0) for kernel agreement."""
+    import time
+    t0 = time.time()
+    try:
+        return _evaluate(ctx, families, tag, all_pairs, shrink)
+    finally:
+        if hasattr(ctx, "extra"):
+            w = ctx.extra.setdefault("stream_wall_s", {})
+            w[tag] = round(w.get(tag, 0) + time.time() - t0, 1)
+
+
+def _evaluate(ctx, families, tag, all_pairs=True, shrink=True):
     L = ctx.lean()
-    jobs = [(fi, ni, cn) for fi, (nets, cfgs) in enumerate(families) for ni in range(len(nets)) for cn in cfgs]
+    jobs = [(fi, ni, cn) for fi, (nets, cfgs) in enumerate(families) for ni in range(len(nets)) for cn in cfgs if not out_of_scope(ctx, families[fi][0][ni], cn)]
     results = pmap([(families[fi][0][ni], cn) for fi, ni, cn in jobs])
     items = [(fi, ni, cn, r) for (fi, ni, cn), r in zip(jobs, results)]  # (fi, ni, cfg, impl result)
     # round 1: the model's views
@@ -553,7 +800,16 @@ def evaluate(ctx, families, tag, all_pairs=True, shrink=True):
     # round 2: analysis of every view + spec verdicts on what the implementation returned
     reqs, slots = [], []
     for k, (fi, ni, cn, r) in enumerate(items):
-        cfg, vg = CFG[cn], views[k]["graph"]
+        cfg = CFG[cn]
+        if any(key in SETLIKE for key in cfg["nk"] + cfg["ek"]):  # a set-valued attribute is selected: one order of its elements on both sides
+            views[k]["graph"] = canon_sets(views[k]["graph"])
+            for part in ("canon", "wl"):
+                if part in r:
+                    r[part]["graph"] = canon_sets(r[part]["graph"])
+        vg = views[k]["graph"]
+        for j, w in enumerate(r.get("api", {}).get("wl", [])):
+            if "graph" in w:
+                reqs.append({"cmd": "crn.iso", "host": vg, "pattern": canon_sets(w["graph"]), **sel(cfg)}); slots.append((k, f"api_wl_iso:{j}"))
         reqs.append({"cmd": "crn.analyse", "graph": vg, **sel(cfg)}); slots.append((k, "analyse"))
         if len(vg["nodes"]) <= 9:
             reqs.append({"cmd": "crn.isos", "host": vg, "pattern": vg, **sel(cfg)}); slots.append((k, "auts"))
@@ -572,6 +828,8 @@ def evaluate(ctx, families, tag, all_pairs=True, shrink=True):
         pr = list(itertools.combinations(range(len(nets)), 2)) if all_pairs else [(0, j) for j in range(1, len(nets))]
         for cn in cfgs:
             for i, j in pr:
+                if (fi, i, cn) not in index or (fi, j, cn) not in index:
+                    continue
                 ki, kj = index[(fi, i, cn)], index[(fi, j, cn)]
                 if "canon" in items[ki][3] and "canon" in items[kj][3]:
                     pairs.append((fi, cn, i, j, ki, kj))
@@ -617,6 +875,8 @@ def evaluate(ctx, families, tag, all_pairs=True, shrink=True):
         ctx.count("aut_count:" + ("1" if lk["analyse"]["count"] == 1 else "2" if lk["analyse"]["count"] == 2 else ">2"))
         if r["collision"]:
             ctx.count("class:" + F19)
+        if "id_types" in r:
+            ctx.count("node_id_types:" + ",".join(r["id_types"]))
         this = families[fi][0][ni]
         hist = this.get("history")
         ctx.case([r["mnet"], cn] + ([this["rxns"], hist, bool(this.get("rebuild"))] if hist else []), nontrivial=(n_nodes >= 3 and n_arcs >= 2),
@@ -687,6 +947,9 @@ def evaluate(ctx, families, tag, all_pairs=True, shrink=True):
             coarse = all(len({cell.get(x) for x in o}) == 1 for o in want["orbits"])
             ctx.count("wl_cells_coarsen_orbits:" + str(coarse))
             ctx.count("wl_cells_equal_orbits:" + str(sorted(w["cells"]) == want["orbits"]))
+        # 4b. the rest of the public surface (configurations <name>@api)
+        if "api" in r and c is not None and v is not None:
+            check_api(ctx, report, r["api"], c, v, lk, want, ids, cfg, fi, ni, cn, r)
         # 5. helper objects created before an edit and asked again: the network they were built on, or the current one
         now = {"canon": (c or {}).get("said"), "vf2": (v or {}).get("said"), "wl": (w or {}).get("said")}
         for u in r.get("reuse", []):
@@ -736,6 +999,55 @@ def check_aut(report, who, a, lk, want, ids, fi, ni, cn, r, maps_ok):
     if "nontrivial" in a and a["nontrivial"] != (want["count"] > 1):
         report(f"{who}: has_nontrivial_automorphism() disagrees with the automorphism count", fi, [ni], cn,
                {"impl": a["nontrivial"], "spec_count": want["count"]}, [r], single=True)
+
+
+def check_api(ctx, report, api, c, v, lk, want, ids, cfg, fi, ni, cn, r):
+    """Gates on the other ways of asking (see `api_variants`).  An answer that claims to be complete (no early stop reported)
+    must be the exact one, whatever limits were given; where no limit can have been reached the answer must be complete.
+    The canonical graph must be the one the unlimited query returned (same network, same options)."""
+    auts = lk.get("auts")
+    n = len(ids)
+    for who, base, recs in (("CRNCanonicalizer", c, api["canon"]), ("CRNAutomorphism", v, api["vf2"])):
+        for rec in recs:
+            how = rec["how"]
+            ctx.count(f"api:{who}:{how.split('(')[0]}:" + ("error" if "error" in rec or "foreign" in rec else "gave-up" if "gave_up" in rec else "complete" if rec.get("complete") else "stopped-early"))
+            if "error" in rec:
+                report(f"{who}: {how} raised an exception", fi, [ni], cn, {"error": rec["error"]}, [r], single=True)
+                continue
+            if "foreign" in rec:
+                report(f"{who}: an answer names nodes that are not nodes of the view it was computed from (asked another way)", fi, [ni], cn, {"call": how, "node": rec["foreign"]}, [r], single=True)
+                continue
+            if "gave_up" in rec:
+                continue
+            if not rec.get("complete"):
+                if rec.get("must"):
+                    report(f"{who}: an early stop is reported although no limit was reached", fi, [ni], cn, {"call": how, "answer": short(rec)}, [r], single=True)
+                continue
+            bad = None
+            if "count" in rec and rec["count"] != want["count"]:
+                bad = ("automorphism count differs from the number of structure-preserving self-maps of the view", {"impl": rec["count"], "spec": want["count"]})
+            elif "orbits_raw" in rec and (not is_partition(rec["orbits_raw"], ids) or sorted(rec["orbits_raw"]) != want["orbits"]):
+                bad = ("reported orbits differ from the classes of nodes exchangeable by automorphisms", {"impl": sorted(rec["orbits_raw"]), "spec": want["orbits"]})
+            elif "maps" in rec and rec["maps"] != (auts if auts is not None else base["maps"]):
+                bad = ("reported mappings are not exactly the structure-preserving self-maps", {"impl": rec["maps"][:20], "spec": (auts if auts is not None else base["maps"])[:20]})
+            elif "nontrivial" in rec and rec["nontrivial"] != (want["count"] > 1):
+                bad = ("has_nontrivial_automorphism() disagrees with the automorphism count", {"impl": rec["nontrivial"], "spec_count": want["count"]})
+            elif "used" in rec and rec["used"] != rec["count"]:
+                bad = ("enumeration counts inconsistent without an early stop", {"used": rec["used"], "count": rec["count"]})
+            elif "graph" in rec and key_graph(canon_sets(rec["graph"]), cfg) != key_graph(c["graph"], cfg):
+                bad = ("the same network under the same options receives a different canonical graph", {"this": rec["graph"], "summary()": c["graph"]})
+            if bad:
+                report(f"{who}: {bad[0]} (asked another way)", fi, [ni], cn, dict(bad[1], call=how), [r], single=True)
+    for j, w in enumerate(api["wl"]):
+        ctx.count("api:WL:" + ("error" if "error" in w or "foreign" in w else "ok"))
+        if "foreign" in w:
+            report("WL canonical graph is not isomorphic to the view it was computed from (non-default options)", fi, [ni], cn, {"call": w["how"], "node": w["foreign"]}, [r], single=True)
+        elif "error" in w:
+            report(f"WL canonicaliser: {w['how'].split('(')[0]} with non-default options raised an exception", fi, [ni], cn, {"error": w["error"], "call": w["how"]}, [r], single=True)
+        elif not lk.get(f"api_wl_iso:{j}") or sorted(x for x, _ in w["graph"]["nodes"]) != list(range(1, n + 1)):
+            report("WL canonical graph is not isomorphic to the view it was computed from (non-default options)", fi, [ni], cn, {"wl_graph": w["graph"], "call": w["how"]}, [r], single=True)
+        elif norm_graph(w["graph_method"]) != norm_graph(w["graph"]) or norm_graph(w["again"]) != norm_graph(w["graph"]) or sorted(w["cells_method"]) != sorted(w["cells"]):
+            report("WL canonicaliser: graph() / orbits() / a second summary() differ from the first summary() of the same object", fi, [ni], cn, {"call": w["how"]}, [r], single=True)
 
 
 # ---------------------------------------------------------------- shrinking
@@ -921,6 +1233,28 @@ def symmetric_families():
     return fams
 
 
+# rare but legal names.  None has the shape <rule>_<n> of a generated reaction id (that is finding F19).
+ODD_LABELS = ["1", "2", "3", "0", "10", "01", "-1", " ", "", "a:b", "a|b", "||", ":", "species", "reaction", "kind", "label", "None", "True",
+              "\u00e9", "\u03b1\u03b2", "A" * 40, "A" * 39 + "B", "a b", "A+B", ">>", "'q'", "(1, 2)"]
+ODD_RULES = ["1", "R:1", "a|b", "", " ", "species", "None", "\u00e9", "R" * 30]
+
+
+def odd_names(net, rnd):
+    """The network with its species renamed into ODD_LABELS, some rules into ODD_RULES, and (sometimes) explicit odd reaction ids."""
+    out = rename_net({"rxns": net["rxns"], "isolated": net.get("isolated", [])}, rnd, pool=ODD_LABELS, ids="regen")
+    rules = {}
+    for q in out["rxns"]:
+        if q["rule"] is not None and rnd.random() < 0.7:
+            q["rule"] = rules.setdefault(q["rule"], rnd.choice(ODD_RULES))
+    if rnd.random() < 0.3:
+        taken = set(net_species(out))
+        ids = [x for x in ["0", "1", "7", "x:y", "e|1", "\u00e9", " ", "9" * 12] if x not in taken]
+        rnd.shuffle(ids)
+        for q, i in zip(out["rxns"], ids):
+            q["eid"] = i
+    return out
+
+
 def f19_nets():
     return [
         {"rxns": [rx([("r_1", 1)], [("B", 1)])]},
@@ -1003,7 +1337,7 @@ ANALYSERS = ["canon", "vf2", "wl"]
 def analyse_op(rnd, same=0.8, kind="analyse"):
     who = rnd.sample(ANALYSERS, rnd.choice([1, 1, 2, 3]))
     who = [w + ("_fn" if rnd.random() < 0.25 else "") for w in who]
-    other = ["stoich-flipped", "stoich-flipped", "view-flipped", "keys-flipped", rnd.choice(sorted(CFG))]
+    other = ["stoich-flipped", "stoich-flipped", "view-flipped", "keys-flipped", "ids-flipped", "ids-flipped", rnd.choice(sorted(CFG))]
     return {"op": kind, "config": "same" if rnd.random() < same else rnd.choice(other), "who": who}
 
 
@@ -1123,7 +1457,7 @@ def structured_histories(rnd):
             out.append((history_family(net, [{"op": "analyse", "config": "same", "who": who}, ed]), name + ":" + flavour))
         # no edit at all: the same object analysed under other options immediately before the query
         who = rnd.sample(ANALYSERS, 2)
-        hist = [{"op": "analyse", "config": rnd.choice(["stoich-flipped", "view-flipped", "keys-flipped"]), "who": who}]
+        hist = [{"op": "analyse", "config": rnd.choice(["stoich-flipped", "view-flipped", "keys-flipped", "ids-flipped"]), "who": who}]
         out.append(([{"rxns": net["rxns"], "isolated": net.get("isolated", []), "history": hist}, net], name + ":options"))
     return out
 
@@ -1134,7 +1468,7 @@ def count_history(ctx, net):
         return
     def walk(hist):
         for op in hist:
-            ctx.count("history_step:" + op["op"] + (":" + (op.get("config") if op.get("config") in ("same", "stoich-flipped", "view-flipped", "keys-flipped") else "named-options") if op["op"].startswith("analyse") else "")
+            ctx.count("history_step:" + op["op"] + (":" + (op.get("config") if op.get("config") in ("same", "stoich-flipped", "view-flipped", "keys-flipped", "ids-flipped") else "named-options") if op["op"].startswith("analyse") else "")
                       + (":keep-orphan" if op["op"] == "drop_species" and not op.get("prune") else ""))
             for w in op.get("who", []):
                 ctx.count("history_analyser:" + w)
@@ -1295,7 +1629,7 @@ def check_ir(ctx, batch, net, cn, tag):
 
     rnd, cfg = ctx.rnd, CFG[cn]
     cap = 300 if ctx.quick else 1500
-    kw = dict(include_rule=cfg["bip"], include_stoich=cfg["stoich"], node_attr_keys=tuple(cfg["nk"]), edge_attr_keys=tuple(cfg["ek"]))
+    kw = dict(ctor_kw(cfg), edge_attr_keys=tuple(cfg["ek"]))
     base = {k: v for k, v in net.items() if k in ("rxns", "isolated")}
     case = {"kind": "ir", "nets": [base], "config": cn}
     public = True  # an exception of the public API is reported with its input, one of the probed internal methods as a correspondence break
@@ -1351,7 +1685,7 @@ def check_ir(ctx, batch, net, cn, tag):
             ir_break(ctx, net, cn, tag, "an internal method (_init_part / _refine / _sig / instrumented _search) raises where summary() does not", {"error": err})
         elif ir_reports(ctx) < IR_MAX_REPORTS:
             ctx.violation("canon raised an exception", {"nets": [base], "config": cn}, {"stream": f"ir:{tag}", "error": err},
-                          classes=[F19] if set(net_species(base)) & set(sim_ids(base)) else [])
+                          classes=[F19] if set(net_species(base)) & set(sim_ids(base)) and not cfg.get("int") else [])
         return None
     n_arcs = G.number_of_edges()
     ctx.count("ir:graphs")
@@ -1475,7 +1809,7 @@ def ir_inputs(ctx):
     plus networks with deep search trees and networks whose label strings order differently from the structured labels."""
     rnd, q = ctx.rnd, ctx.quick
     XCFG = [c["name"] for c in CONFIGS_X]
-    EVERY = ALL + XCFG
+    EVERY = ALL + XCFG + [c["name"] for c in CONFIGS_I if c["bip"]] + ["bip+stoich/no-keys", "bip-stoich/role-only/int-ids"]
     for case in load_regress():
         for net in case["nets"]:
             yield "regress", net, case.get("configs", ALL)
@@ -1536,6 +1870,8 @@ def stream_ir(ctx):
     for tag, net, cfgs in ir_inputs(ctx):
         ctx.count("ir:networks")
         for cn in cfgs:
+            if out_of_scope(ctx, net, cn):
+                continue
             done = check_ir(ctx, batch, net, cn, tag)
             if done is None:
                 continue
@@ -1559,7 +1895,7 @@ def run(ctx):
         "Lean 4.33 kernel; axioms of the property theorems as listed in obligation_list",
         "hand-written model SynKitModel/CrnCanon.lean (views, directed isomorphism specification + enumerator, orbits, canonBy, canonBruteD) "
         "tied to /repo by this correspondence run (not by translation)",
-        "Driver/CrnCanon.lean JSON codec, harness/props/c18.py adapter (string node ids interned: species i -> i, reaction j -> nS+j, both in sorted order; "
+        "Driver/CrnCanon.lean JSON codec, harness/props/c18.py adapter (node ids interned: species i -> i, reaction j -> nS+j, both in sorted order; integer ids via int_id_names; "
         "sets / per-id maps of the species view compared as sets / dicts)",
         "the two id() schedules used for the cache-transparency gate shadow the name `id` inside synkit.CRN.Topo.canon only (its single use is the epoch key of _refine)",
         "hand-written model SynKitModel/CrnIR.lean of CRNCanonicalizer's individualisation-refinement search (_init_part, _sig, _refine, _label, _search, _orbits_from_perms; "
@@ -1575,6 +1911,12 @@ def run(ctx):
         "'structure-preserving' is read with the node and arc attribute keys the analyser is configured with (DESIGN 5a); 'identical canonical graphs' = equal node ids 1..N, "
         "equal selected node attributes, equal arc sets with equal selected arc attributes",
         "WLCanonicalizer is documented as approximate: only faithfulness of its relabelled graph is gated; its cells are recorded against the exact orbits",
+        "integer node ids: which species / reaction an integer stands for is read off the node's `label` (species) and off rule + incident arcs (reactions; reactions agreeing in all of "
+        "that are exchangeable), falling back to the documented numbering species 1..N, reactions N+1..N+M; the property fixes no numbering",
+        "limits: an analyser that reports no early stop (early_stop / stopped_early False) claims the exact answer whatever limits it was given; a limit above the size of the search "
+        "(max_depth >= number of nodes, max_count > automorphism count, a time limit of 1e6 s, or a default time limit >= 5 s on a call that returned within 2 s) is not reached; "
+        "under tight limits a RuntimeError ('canonical form not found') or a reported early stop is accepted and nothing else is demanded",
+        "detect_automorphisms has no edge_attr_keys parameter (arcs matched on role + stoich): gated only under configurations whose arc keys are these two",
         "in-place edits of the history stream go through add_rxn / remove_rxn / remove_species, or change a coefficient (>= 1) of a species already on a side / the rule field of a stored "
         "reaction (the store stays consistent); a helper object keeps the view it built on first use (documented as cached), so a helper created before an edit may describe the network "
         "as it was then or as it is now, nothing else; new helper objects must describe the current content",
@@ -1593,6 +1935,15 @@ def run(ctx):
         "stored reaction set directly, remove_species keeping or pruning the orphan, reactions added / removed, a copy forked off with the edit going to the copy or to the original), "
         "possibly analysed and edited again, possibly with a different network of the same labels and ids analysed in between, and then queried; each history comes with a brand-new "
         "object of the same final content and ids and with its starting network, under 4 of the 7 configurations (structured ones under all 7). "
+        "Option variation: 4 integer-id configurations (bipartite +/- stoichiometry, kind+label with permuted key lists; species view with the flag set) and 6 key selections "
+        "(more keys / absent keys, node keys among arc keys and vice versa, no keys, role only + integer ids, set-valued `rules` on the species view, node keys only): all integer-id ones + "
+        "3 of the 6 (all in thorough) on every symmetric family with renamed copies and a near miss; integer-id configurations on the F19 networks; one of them on every third exhaustive "
+        "family and on every random family (thorough: every exhaustive family, two per random family); integer-id / two key-selection configurations among those of the history stream, "
+        "`ids-flipped` among the option flips inside histories. Public-surface stream `api`: every symmetric family (5 of the 17 configurations in quick, all in thorough) and 30 / 400 "
+        "random networks (2 configurations each) under `<name>@api`: 9 further canonicaliser calls (limits not reached / tight, wrapper, methods, keys as lists), up to 8 VF2 calls "
+        "(limits above / at default / below the count, methods, iter, wrapper where the arc keys are role+stoich), 7 WL option sets through class and wrapper. "
+        "Stream `odd-names`: 24 / 300 random networks and the symmetric families (30% / all) with species, rules and ids from a pool of 28 rare names (numeric strings, ':' '|', "
+        "'species', 'kind', blank, empty, long, non-ASCII), with renamed copies and a near miss, under 2 standard + 2 option configurations. "
         "IR correspondence stream (last): regression corpus, every symmetric family (all 7 configurations) with a renamed copy, F19 networks, 2..3 disjoint identical components of small "
         "fixed / random networks (search trees of depth >= 2), rings with coefficients 10 / 2 and a 12-vs-3 network (label strings order differently from structured labels), exhaustive "
         "3-species networks (sampled in quick), random networks (half of them renamed), each under 2..7 configurations; per graph 2 probe partitions (unit / one cell of the refined "
@@ -1622,19 +1973,58 @@ def run(ctx):
     # F19 class
     evaluate(ctx, [([n, rename_net(n, rnd)], ALL) for n in f19_nets()], "f19")
 
-    # option variation on the symmetric families: permuted key lists, label among the node keys of the species view
+    # option variation on the symmetric families: permuted key lists, label among the node keys of the species view,
+    # integer node ids, more / crossed / no attribute keys
     XCFG = [c["name"] for c in CONFIGS_X]
+    ICFG = [c["name"] for c in CONFIGS_I]
+    KCFG = [c["name"] for c in CONFIGS_K]
     fams = []
     for name, net in symmetric_families():
         members = [net, rename_net(net, rnd), rename_net(net, rnd, ids="explicit", keep_labels=True)]
         nm = near_miss(net, rnd)
         if nm:
             members.append(nm[0])
-        fams.append((members, XCFG))
+        fams.append((members, XCFG + ICFG + (rnd.sample(KCFG, 3) if ctx.quick else KCFG)))
     evaluate(ctx, fams, "symmetric-options")
 
+    # integer node ids on the F19 networks: no id collision is possible there, every gate applies
+    evaluate(ctx, [([n, rename_net(n, rnd)], [c for c in ICFG if CFG[c]["bip"]]) for n in f19_nets()], "f19-integer-ids")
+
+    # the rest of the public surface (limits that are not reached, default and tight limits, functional wrappers, single-purpose
+    # methods, key selections as lists, WL option sets) under every configuration: symmetric families, then random networks
+    EVERY = ALL + XCFG + ICFG + KCFG
+    fams = []
+    for name, net in symmetric_families():
+        member = net if rnd.random() < 0.5 else rename_net(net, rnd, keep_labels=rnd.random() < 0.3, ids=rnd.choice(["regen", "explicit"]))
+        fams.append(([member], [c + "@api" for c in (rnd.sample(EVERY, 5) if ctx.quick else EVERY)]))
+    for _ in range(30 if ctx.quick else 400):
+        net = random_net(rnd, max_species=5, max_rxns=4)
+        fams.append(([net], [c + "@api" for c in rnd.sample(EVERY, 2)]))
+    ctx.count("families:api", len(fams))
+    for b in batches(fams, 100):
+        if len(ctx.violations) < 20:
+            evaluate(ctx, b, "api")
+
+    # rare but legal species labels / rule names / reaction ids (numeric strings next to integer node ids, the separators of the
+    # label rendering, names of attribute keys and kinds, blanks, long and non-ASCII names), renamed and re-ordered
+    fams = []
+    for _ in range(24 if ctx.quick else 300):
+        net = odd_names(random_net(rnd, max_species=5, max_rxns=4), rnd)
+        members = [net, rename_net(net, rnd, keep_labels=True, ids="regen"), rename_net(net, rnd, pool=ODD_LABELS, ids=rnd.choice(["regen", "explicit"]))]
+        nm = near_miss(net, rnd)
+        if nm:
+            members.append(nm[0])
+        fams.append((members, rnd.sample(ALL, 2) + rnd.sample(XCFG + ICFG + KCFG, 2)))
+    for name, net in symmetric_families():
+        if net["rxns"] and rnd.random() < (0.3 if ctx.quick else 1.0):
+            fams.append(([rename_net(net, rnd, pool=ODD_LABELS, ids="regen"), rename_net(net, rnd, pool=ODD_LABELS, ids="regen"), net], rnd.sample(EVERY, 4)))
+    ctx.count("families:odd-names", len(fams))
+    for b in batches(fams, 100):
+        if len(ctx.violations) < 20:
+            evaluate(ctx, b, "odd-names")
+
     # histories on one object: analyse -> edit in place -> analyse again (new and old helper objects)
-    HCFG = ALL + XCFG
+    HCFG = ALL + XCFG + ICFG + ["bip+stoich/more-keys", "species+stoich/rules"]
     fams = [(members, HCFG) for members, _ in structured_histories(rnd)]
     ctx.count("families:history-structured", len(fams))
     nh = 70 if ctx.quick else 700
@@ -1662,7 +2052,7 @@ def run(ctx):
     fams = []
     for net in ex1 + ex2:
         members = [net] + [permute_net(net, perm, reverse=(k % 2 == 1)) for k, perm in enumerate(S3[1:])]
-        fams.append((members, ALL))
+        fams.append((members, ALL + ([rnd.choice(ICFG + KCFG)] if not ctx.quick or len(fams) % 3 == 0 else [])))
     for b in batches(fams, 150):
         if len(ctx.violations) < 20:
             evaluate(ctx, b, "exhaustive3", all_pairs=False)
@@ -1683,7 +2073,7 @@ def run(ctx):
             nm = near_miss(net, rnd)
             if nm:
                 members.append(nm[0]); ctx.count("near_miss:" + nm[1])
-        fams.append((members, ALL))
+        fams.append((members, ALL + ([rnd.choice(ICFG), rnd.choice(KCFG)] if not ctx.quick else [rnd.choice(ICFG + ICFG + KCFG)])))
     for b in batches(fams, 100):
         if len(ctx.violations) < 20:
             evaluate(ctx, b, "random")
